@@ -256,7 +256,7 @@ class Spec(spec_tree.Spec):
         if not t or t[0] in ('fs', 'glob'):
             return
         if t[0] == 'pop':
-            d = dict(x.split('=') for x in t[2:])
+            d = dict(x.split('=') for x in t[2:])        # the spelling of the root does not matter
             self.pops[t[1]] = {'nest': d['nest'] == '1', 'trim': d['trim'] == '1', 'rules': []}
         elif t[0] == 'rule':
             d = dict(x.split('=', 1) for x in t[3:])
